@@ -191,3 +191,32 @@ def incomplete_tests(body):
                 others.append(sw["otherwise"])
             out.append({"bb": sw["bb"], "true": sw["arms"]["Incomplete"], "false": others})
     return out
+
+
+def const_value_of(prog, body, op, depth=6):
+    """String value of an operand that is (a copy / reborrow of) a literal or a named constant."""
+    from .facts import const_str
+    for _ in range(depth):
+        c = op_const(op)
+        if c is not None:
+            v = const_str(c)
+            if v is None and "named" in c and c["named"] in prog.consts:
+                v = const_str(prog.consts[c["named"]])
+            return v
+        l = op_local(op)
+        if l is None:
+            p = op_place(op)
+            if p is None or p["p"] != ["*"]:
+                return None
+            l = p["l"]
+        defs = [s for bb, i, s in body.stmts() if s["k"] == "assign" and s["place"]["l"] == l and not s["place"]["p"]]
+        if len(defs) != 1:
+            return None
+        rv = defs[0]["rv"]
+        if rv["k"] in ("use", "cast"):
+            op = rv["op"]
+        elif rv["k"] == "ref" and rv["place"]["p"] in ([], ["*"]):
+            op = {"copy": {"l": rv["place"]["l"], "p": []}}
+        else:
+            return None
+    return None
